@@ -58,6 +58,9 @@ GRest == Quiescent /\ turn = 0 /\ UNCHANGED allvars
 GInit == Init /\ turn = 0 /\ sched = <<>> /\ cur = NoCur
 GNext == (\E p \in Procs : GStep(p)) \/ GRest
 GSpec == GInit /\ [][GNext]_allvars
+\* without the final stuttering step: terminal states have no successor (CHECK_DEADLOCK FALSE), so that a
+\* -simulate walk ends there and the exhaustive export prints every schedule once
+GSpecNoRest == GInit /\ [][\E p \in Procs : GStep(p)]_allvars
 NoSched == <<vars, turn, cur>>
 
 ProgJson == [p \in Procs |-> [i \in 1..Len(Prog[p]) |-> [op |-> Prog[p][i].op, m |-> Prog[p][i].m, set |-> Prog[p][i].set]]]
